@@ -289,6 +289,7 @@ def solve_attempt(q, backend, cap, memgb):
     cmd = cbmc_cmd(q, backend)
     t0 = time.time()
     outp = os.path.join(q.dir, "out.%s.txt" % backend)
+    os.makedirs(q.dir, exist_ok=True)
     with open(outp, "w") as fo:
         p = subprocess.Popen(cmd, stdout=fo, stderr=subprocess.STDOUT, cwd=q.dir,
                              preexec_fn=limit_mem(memgb))
@@ -319,7 +320,10 @@ def solve_attempt(q, backend, cap, memgb):
             break
         time.sleep(0.1)
     dt = time.time() - t0
-    o = open(outp, errors="replace").read()
+    try:
+        o = open(outp, errors="replace").read()
+    except OSError:
+        o = ""
     r = parse_output(o)
     att = {"backend": backend, "seconds": round(dt, 2),
            "rss_mb": int(ru.ru_maxrss / 1024) if ru else 0}
